@@ -11,7 +11,9 @@ from common import RVH_DEBUG, hx, proof_stage, unhx
 from pipeline import correspondence, parse_loc, pipe_req, RANGE
 
 THEOREMS = ["Rva.lex_covers", "Rva.lexNext_progress", "Rva.lexNext_none", "Rva.lexNext_start",
-            "Rva.recover_spec", "Rva.recover_no_newline", "Rva.recover_suffix"]
+            "Rva.recover_spec", "Rva.recover_no_newline", "Rva.recover_suffix",
+            "Rva.parseInst_good", "Rva.parseNode_good", "Rva.parseStep_suffix", "Rva.parseStep_eof",
+            "Rva.parseStep_progress"]
 
 BAD_LINES = ["add t0, t1", "addi a0, a0", "lw a0", "foo a0, a1", "mov a0, a1", "addi a0, a0, 99999999999",
              "addi a0, q7, 1", "li a0, 1 +", "% li a0, 1", "li a0, 1 é", "li a0 : 1", "add t0, t1, t2 \r",
@@ -103,7 +105,7 @@ def meaningful(line):
 
 def run(res, tier, seed):
     rng = random.Random(seed)
-    proof_ok = proof_stage(res, "Rva.Proofs.C07", THEOREMS)
+    proof_ok = proof_stage(res, "Rva.Proofs.C07b", THEOREMS, extra_modules=["Rva.Proofs.C07", "Rva.Proofs.LexTotal"])
     n = 120 if tier == "quick" else 12000
     inputs, meta = [], []
     for _ in range(n):
